@@ -153,6 +153,26 @@ class LiveGen(object):
             self.pb, self.pr = save
         return '.'.join(frags)
 
+    def long_string(self, n):
+        """Scale: one fragment of about n symbols whose derivation stays alive to the end (chain atoms of capacity >= 3,
+        short branches, small rings, now and then a double bond)."""
+        r = self.r
+        pool = [a for a, c in self.caps.items() if c >= 3] or self.any
+        out = []
+        while len(out) < n:
+            x = r.random()
+            if x < 0.78:
+                out.append('[%s]' % r.choice(pool))
+            elif x < 0.83:
+                out.append('[=%s]' % r.choice(pool))
+                out.append('[%s]' % r.choice(pool))
+            elif x < 0.93:
+                k = r.choice([1, 2])
+                out += ['[%s]' % r.choice(pool), '[Branch1]', '[C]' if k == 1 else '[Ring1]'] + ['[%s]' % r.choice(self.any) for _ in range(k)] + ['[%s]' % r.choice(pool)]
+            else:
+                out += ['[%s]' % r.choice(pool), '[Ring1]', r.choice(['[Ring1]', '[Ring2]', '[Branch1]', '[C]'])]
+        return ''.join(out)
+
     def deep(self, depth, tail=3):
         """depth nested branches, each opened inside the budget of the last."""
         r = self.r
